@@ -446,3 +446,26 @@ def resample_registry():
     r = update_registry()
     r.generic_loops.add(CSMC + "._resample_swarm")
     return r
+
+
+def h_swarm_add(I, init_fi, add_fi):
+    """ParticleSwarm.__init__ / add_particle: an empty swarm; adding (w, p) appends p and w at the same position of the two parallel lists and
+    invalidates the cached normalisation constant (so weights are always those of the particles present: the Recorder abstraction used by the
+    sampler contracts is the view (w_i, p_i)_i of these two lists)."""
+    P = I.P
+    sw0 = Obj(init_fi.cls)
+    I.call_function(init_fi, [sw0], {}, force_inline=True)
+    P.check("swarm.init-empty", sw0.fields.get("particles") == [] and sw0.fields.get("_unnormalized_log_weights") == [] and sw0.fields.get("_log_norm_const") is None
+            and sw0.fields["particles"] is not sw0.fields["_unnormalized_log_weights"], "a new swarm has no particle, no weight and no cached constant", kind="post")
+    N = alg.sym("N", "Int")
+    P.assume(P.z(N) >= 0)
+    sw = swarm_obj(I, I.repo, "s", N)
+    sw.fields["_log_norm_const"] = alg.sym("stale_Z")
+    w, p = alg.sym("w_new"), IndexedParticle("new", Num.const(0))
+    I.call_function(add_fi, [sw, w, p], {}, force_inline=True)
+    dsl.cover(I, "swarm.add")
+    parts, uw = sw.fields["particles"], sw.fields["_unnormalized_log_weights"]
+    ok = isinstance(parts, SymSeq) and isinstance(uw, SymSeq) and parts.tail == [p] and len(uw.tail) == 1 and (I.to_num(uw.tail[0]) - w).is_zero() \
+        and parts.core_len.key() == N.key() and uw.core_len.key() == N.key()
+    P.check("swarm.add-appends-in-parallel", ok, "the particle and its weight are appended at the same (last) position; earlier entries are untouched", kind="post")
+    P.check("swarm.add-invalidates-the-constant", sw.fields["_log_norm_const"] is None, "the cached normalisation constant is dropped", kind="post")
